@@ -395,6 +395,19 @@ def start_rules(F, rep):
             ok = True
             var_only = all(any((pat_variant(x) or "").endswith("name_resolution::Name::Name") for x in nodes_pat(a["pat"])) for a in passing)
             own_file = all(a.get("guard") is not None and _file_is_main(a["guard"]) for a in passing)
+    # the same test written as `let has_start = matches!(lookup_global(0, "start"), Some(Name::Name(v)) if ..); if !has_start { Err }`
+    fl_r = Flow(fres, fn_body(fres))
+    for i in nodes(fn_body(fres), "If"):
+        c = peel(i["c"])
+        if c.get("k") == "Unary" and c.get("op") == "Not" and peel(c["e"]).get("k") == "Path" and tc.is_err_value(i["t"]):
+            src = fl_r.trace(c["e"])
+            if isinstance(src, dict) and src.get("k") == "Match" and _is_start_lookup(src["scrut"]):
+                yes = [a for a in src["arms"] if peel(a["body"]).get("v") is True]
+                no = [a for a in src["arms"] if peel(a["body"]).get("v") is False]
+                if yes and no:
+                    ok = True
+                    var_only = all(any((pat_variant(x) or "").endswith("name_resolution::Name::Name") for x in nodes_pat(a["pat"])) for a in yes)
+                    own_file = all(a.get("guard") is not None and _file_is_main(a["guard"]) for a in yes)
     rep.ob("START", "resolve|no-start=>Err", ok, "a main module (namespace 0) without a global `start` is an error", fres["sp"])
     rep.ob("START", "resolve|start-is-a-variable", var_only,
            "only a variable satisfies the check: `use lib as start` or a file named start.sy does not provide an entry point", fres["sp"])
